@@ -27,7 +27,11 @@ def sh(cmd, **kw):
 def run_demo(repo, demo, timeout=600):
     env = {**os.environ, 'PYTHONPATH': repo}
     try:
-        p = sh([PY, demo], cwd=repo, env=env, timeout=timeout)
+        # (a background job of a non-interactive shell inherits SIGINT as ignored, and Python then never
+        # raises KeyboardInterrupt: demonstrations that send interrupts need the default disposition)
+        import signal
+        p = sh([PY, demo], cwd=repo, env=env, timeout=timeout,
+               preexec_fn=lambda: signal.signal(signal.SIGINT, signal.SIG_DFL))
         return p.returncode, (p.stdout + p.stderr)[-600:]
     except subprocess.TimeoutExpired:
         return 124, 'timeout'
